@@ -7,6 +7,40 @@ NOTE = (
 )
 
 CHECKS = {
+    "C06": {
+        "technique": "icontract recording postcondition on z_factor_DAK (every evaluation, whoever "
+        "calls it) judged against the harness's published-DAK residual; 10-psi continuity ladders; "
+        "sys.monitoring loop counter with a logical iteration budget on Hall-Yarbrough",
+        "level_text": "Runtime monitoring over the whole (T_r, p_r) rectangle and the table "
+        "builder's default range; 'terminates' is restated as a bounded claim (<= 200 Newton "
+        "iterations, counted by LINE events). Known finding K1 is recognised by mechanism only.",
+        "design_ref": "DESIGN.md section 3, C06",
+        "level_note": NOTE + " Transcription of the published DAK coefficients is trusted.",
+    },
+    "C07": {
+        "technique": "paired-call monitor: identities between returned density / FVF / "
+        "compressibility values; d ln(rho)/dp by Richardson differences of the real density_DAK",
+        "level_text": "Runtime monitoring at generated gas / oil / brine state points and along "
+        "pressure ladders. Known finding K2 is recognised by mechanism only.",
+        "design_ref": "DESIGN.md section 3, C07",
+        "level_note": NOTE,
+    },
+    "C08": {
+        "technique": "three real pseudopressure routes evaluated on the same composition and "
+        "compared on pressure differences; stand-alone transform vs harness trapezoid",
+        "level_text": "Runtime monitoring over random compositions and synthetic positive tables; "
+        "agreement, zero at the reference, monotonicity and additivity on every compared pair.",
+        "design_ref": "DESIGN.md section 3, C08",
+        "level_note": NOTE,
+    },
+    "C19": {
+        "technique": "paired-call monitor: Fluid methods vs independent stand-alone calls; every "
+        "build_pvt_gas row recomputed at the Sutton point; Sutton reductions and rejection",
+        "level_text": "Runtime monitoring over random Fluid parameter sets, compositions, maxima "
+        "and dryness settings; equality to rounding on every compared value.",
+        "design_ref": "DESIGN.md section 3, C19",
+        "level_note": NOTE,
+    },
     "C11": {
         "technique": "differential runtime monitor: real array call vs per-element scalar calls, "
         "byte snapshot of the caller's buffer; dtype / layout / length sweep",
